@@ -192,6 +192,11 @@ func (f *machoMarkers) PatchSignature(oldHeader []byte, sigSize int64) (newHeade
 		// place signature after the current end of __LINKEDIT
 		sigStart = align(f.codeSize, alignSegmentFile)
 	}
+	// offset and size of the signature are 32-bit fields of its load command
+	if sigStart < f.codeSize || sigSize < 0 || sigSize > 1<<32-1 || sigStart > 1<<32-1-sigSize {
+		err = errors.New("mach-o image is too large to hold a code signature")
+		return
+	}
 	// allocate patch buffer for signature
 	padding = sigStart - f.codeSize
 	padded := make([]byte, padding+sigSize)
